@@ -499,7 +499,7 @@ def c20(ctx):
             # confirm: run the very same command line again
             e2 = subprocess.run([binp] + o["args"], input=o["stdin"], capture_output=True, text=True)
             same = (e2.returncode == o["exit"]) and (o["mode"] == "check" or e2.stdout == o["stdout"])
-            if same and len(o["stdin"]) < 2000:
+            if same:
                 seen.add(v["what"])
                 ctx.add_violation("C20: %s | args: %s | stdin: %s | exit=%s stdout=%s | library: %s %s" % (v["what"], o["args"], o["stdin"][:300], o["exit"], o["stdout"][:300], o["libst"], o["libjson"][:300]),
                                   dict(kind="cli", property="C20", case=o))
